@@ -542,6 +542,15 @@ func checkPlanWith(c Plan, s *rt.Section, pre []*aloneRun) (*rt.Failure, planInf
 				info.discard = "work-ceiling"
 				return nil, info
 			}
+			// the closed form of XdY+K (Y written out or the VM's default sides) also judges the solitary run:
+			// what a VM computes alone must not depend on what other VMs of the process did before it
+			if st := spec.Steps[i]; st.Kind == "dice" && !spec.Cfg.NoNDice && o.Panic == "" {
+				if o.ParseErr || o.Err != "" || !o.RetIsInt || o.RetInt < st.Lo || o.RetInt > st.Hi {
+					return s.NewFailure("alone-dice-range", "alone:dice-range", c,
+						fmt.Sprintf("VM %d (default sides %q, bitwise off %v, mode %q) alone, step %d %q: err=%q value=%s", g, spec.Cfg.DefSide, spec.Cfg.NoBitwise, spec.Cfg.Mode, i, st.Src, o.Err, o.Ret),
+						fmt.Sprintf("an integer in [%d, %d]", st.Lo, st.Hi)), info
+				}
+			}
 			if o.ParseErr {
 				info.parseErrs++
 			} else if o.Err != "" {
@@ -729,16 +738,60 @@ func drawCfg(t *rapid.T, seeded bool) vmx.Cfg {
 		cfg.NoNDice = true
 	case 2:
 		cfg.NoBitwise = true
-	case 3:
-		cfg.DefSide = "20"
+	case 3, 4, 5, 6:
+		// default sides: the text is compiled lazily; what it compiles to depends on the VM's own flags
+		d := rapid.SampledFrom(defSideTable).Draw(t, "defSide")
+		cfg.DefSide = d.Text
+		cfg.NoBitwise = rapid.Bool().Draw(t, "defSideNoBitwise")
 	}
 	return cfg
+}
+
+// defSideTable: default-sides texts and the number of sides they stand for, with the bitwise operators on and off
+// (off: the text ends before the '|'). Closed form, independent of any run of the library.
+var defSideTable = []struct {
+	Text              string
+	Sides, SidesNoBit int64
+}{{"20", 20, 20}, {"6", 6, 6}, {"2|8", 10, 2}, {"15|64", 79, 15}, {"4|3", 7, 4}, {"1|2|4", 7, 1}, {"3+4", 7, 7}}
+
+// defSides returns the sides of a bare die on a VM of this configuration (0: none configured).
+func defSides(cfg vmx.Cfg) int64 {
+	for _, d := range defSideTable {
+		if d.Text == cfg.DefSide {
+			if cfg.NoBitwise {
+				return d.SidesNoBit
+			}
+			return d.Sides
+		}
+	}
+	return 0
+}
+
+// diceStep is x dice + k: with sides > 0 written out as XdY, otherwise as a bare Xd on a VM whose default sides are `def`.
+func diceStep(cfg vmx.Cfg, x, y, k int64, bare bool) Step {
+	src := fmt.Sprintf("%dd%d + %d", x, y, k)
+	if bare {
+		y = defSides(cfg)
+		src = fmt.Sprintf("%dd + %d", x, k)
+		if x == 1 {
+			src = fmt.Sprintf("d + %d", k)
+		}
+	}
+	st := Step{Src: src, Kind: "dice", Lo: x + k, Hi: x*y + k}
+	switch cfg.Mode {
+	case "min":
+		st.Hi = st.Lo
+	case "max":
+		st.Lo = st.Hi
+	}
+	return st
 }
 
 type vmGen struct {
 	env      *gen.Env
 	o        gen.Opts
 	unseeded bool
+	cfg      vmx.Cfg
 }
 
 // maxSrc: longer sources are replaced (counted): the memoising parser needs hundreds of MB for a 40 KB sum, eight
@@ -780,13 +833,14 @@ func drawStep1(t *rapid.T, s *rt.Section, vg *vmGen) Step {
 			return Step{Src: src, Kind: "hostile"}
 		}
 		return Step{Src: "1", Kind: "fixed"}
-	case k < 17 || (k == 17 && !vg.unseeded):
+	case k < 16, k < 18 && defSides(vg.cfg) == 0 && !(k == 17 && vg.unseeded):
 		return Step{Src: rapid.SampledFrom(catalogue).Draw(t, "fixed"), Kind: "fixed"}
 	}
 	x := rapid.IntRange(1, 6).Draw(t, "diceX")
 	y := rapid.IntRange(1, 20).Draw(t, "diceY")
 	kk := rapid.IntRange(0, 9).Draw(t, "diceK")
-	return Step{Src: fmt.Sprintf("%dd%d + %d", x, y, kk), Kind: "dice", Lo: int64(x + kk), Hi: int64(x*y + kk)}
+	bare := defSides(vg.cfg) > 0 && rapid.IntRange(0, 3).Draw(t, "diceBare") != 0
+	return diceStep(vg.cfg, int64(x), int64(y), int64(kk), bare)
 }
 
 // contention templates: every VM of the plan runs the same program text, over and over, with its own number
@@ -817,6 +871,18 @@ var contentionTemplates = []string{
 	"3d{t} + {t}d6k2",
 	"[{t},2,3,4].shuffle()",
 	"typeId({t}) + dir([{t}]).len()",
+	"[{t},2,3,4].rand()",
+	"[{t},2,3,4].randSize(2)",
+	"x=[{t},2,3]; x.shuffle(); x.rand() + [1,2].randSize(1).len()",
+	contendBareDice,
+	contendBareDice,
+}
+
+// contendBareDice: every VM of the plan has the same default-sides text, but its own flags
+const contendBareDice = "<bare dice>"
+
+func randTemplate(tpl string) bool {
+	return strings.Contains(tpl, "rand") || strings.Contains(tpl, "shuffle")
 }
 
 func drawContention(t *rapid.T) Plan {
@@ -824,14 +890,25 @@ func drawContention(t *rapid.T) Plan {
 	tpl := rapid.SampledFrom(contentionTemplates).Draw(t, "contendOn")
 	nvm := rapid.SampledFrom([]int{2, 3, 4, 4, 6}).Draw(t, "vms")
 	rounds := rapid.IntRange(5, 30).Draw(t, "rounds")
+	seededOf10 := 8
+	if randTemplate(tpl) {
+		seededOf10 = 4 // the methods that draw: mostly VMs that share the process-wide generator
+	}
+	defText := rapid.SampledFrom(defSideTable).Draw(t, "contendDefSide").Text
 	for i := 0; i < nvm; i++ {
-		seeded := rapid.IntRange(0, 9).Draw(t, "seeded") < 8
+		seeded := rapid.IntRange(0, 9).Draw(t, "seeded") < seededOf10
 		spec := VMSpec{Cfg: drawCfg(t, seeded), Tag: 3 + 7*i, Hooks: rapid.Bool().Draw(t, "hooks"),
 			SeedObs: rapid.Bool().Draw(t, "seedObs"), Spin: rapid.IntRange(0, 10).Draw(t, "spin")}
 		spec.Cfg.NoStmts = false
-		src := strings.ReplaceAll(tpl, "{t}", strconv.Itoa(spec.Tag))
+		step := Step{Src: strings.ReplaceAll(tpl, "{t}", strconv.Itoa(spec.Tag)), Kind: "fixed"}
+		if tpl == contendBareDice {
+			spec.Cfg.DefSide = defText
+			spec.Cfg.NoBitwise = rapid.Bool().Draw(t, "contendNoBitwise")
+			spec.Cfg.NoNDice = false
+			step = diceStep(spec.Cfg, int64(1+i%3), 0, int64(spec.Tag), true)
+		}
 		for j := 0; j < rounds; j++ {
-			spec.Steps = append(spec.Steps, Step{Src: src, Kind: "fixed"})
+			spec.Steps = append(spec.Steps, step)
 		}
 		c.VMs = append(c.VMs, spec)
 	}
@@ -862,7 +939,9 @@ func drawPlan(t *rapid.T, s *rt.Section, maxSteps int) Plan {
 		o.Dice = true
 		o.SingleKeyDicts = true // nothing compared may depend on Go map order
 		o.CoC, o.WoD, o.Fate, o.DC = spec.Cfg.CoC, spec.Cfg.WoD, spec.Cfg.Fate, spec.Cfg.DC
-		vg := &vmGen{env: &gen.Env{}, o: o, unseeded: !seeded}
+		o.DefaultSides = spec.Cfg.DefSide != ""
+		o.RandMethods = true // shuffle / rand / randSize: a seeded VM replays them, an unseeded one draws from the process-wide generator
+		vg := &vmGen{env: &gen.Env{}, o: o, unseeded: !seeded, cfg: spec.Cfg}
 		n := rapid.SampledFrom([]int{5, 5, 6, 8, 10, 12, 16, 24, 40}).Draw(t, "steps")
 		if n > maxSteps {
 			n = maxSteps
@@ -926,7 +1005,7 @@ func classify(s *rt.Section, c Plan, info planInfo, h uint64) {
 	}
 }
 
-const planRule = "plan = 2..8 goroutines, each with its own VM (seeded 60 % / unseeded, own error language, family flags, min/max mode, budgets, restriction flags, 1/3 with own custom dice + global-load func + st callback + store hook) and 5..40 programs: generated programs with noise on an accumulating variable environment (dice of the enabled families), the same with a broken-off tail or 1..3 byte edits, hostile-typing templates, a fixed catalogue (every built-in, prototype and bound method, dice family, template, st form, rejected inputs) and plain XdY+K terms; one plan in four instead lets all its VMs run one and the same template 5..30 times, each with its own number in it (same shared built-in at the same moment, different right answers); each VM history is run alone first, then all VMs run at once behind a barrier with drawn spins and yields; every evaluation is compared with its solitary twin (parse verdict, error text, value, Matched/RestInput, process text, variables, op count, generator state, hook log; after an unseeded VM's first draw from the process-wide generator only parse verdict, parse error text, Matched/RestInput and the legal range of XdY+K); non-trivial = at least two goroutines had evaluations in progress at the same time (clock stamps) and the plan contains a parse error and an unseeded roll; distinct by plan; evaluations = programs executed concurrently"
+const planRule = "plan = 2..8 goroutines, each with its own VM (seeded 60 % / unseeded, own error language, family flags, min/max mode, budgets, restriction flags, 1/3 with own custom dice + global-load func + st callback + store hook) and 5..40 programs: generated programs with noise on an accumulating variable environment (dice of the enabled families), the same with a broken-off tail or 1..3 byte edits, hostile-typing templates, a fixed catalogue (every built-in, prototype and bound method, dice family, template, st form, rejected inputs) and plain XdY+K terms (on the quarter of the VMs that have a default-sides text — 20, 6, 2|8, 15|64, 4|3, 1|2|4, 3+4, each with the bitwise operators on or off — mostly written Xd+K), array shuffle/rand/randSize in the generated programs; one plan in four instead lets all its VMs run one and the same template 5..30 times, each with its own number in it (same shared built-in at the same moment, different right answers; for the drawing array methods 60 % of the VMs unseeded; for bare dice all VMs with one default-sides text and their own flags); every XdY+K / Xd+K evaluation, alone or concurrent, must give an integer in its closed-form range (exact under min/max mode); each VM history is run alone first, then all VMs run at once behind a barrier with drawn spins and yields; every evaluation is compared with its solitary twin (parse verdict, error text, value, Matched/RestInput, process text, variables, op count, generator state, hook log; after an unseeded VM's first draw from the process-wide generator only parse verdict, parse error text, Matched/RestInput and the legal range of XdY+K); non-trivial = at least two goroutines had evaluations in progress at the same time (clock stamps) and the plan contains a parse error and an unseeded roll; distinct by plan; evaluations = programs executed concurrently"
 
 func planProp(t *rapid.T, s *rt.Section, run *rt.Run) {
 	maxSteps := 40
